@@ -158,6 +158,41 @@ def prepare_dialect(mod, which):
     return {"dir": d, "cm": cm, "gen": gen, "problems": probs, "mod": cur, "fitted_out": fitted_out}
 
 
+def harness_compile_findings(prep, log_):
+    """{harness_name: message} for rustc errors E0425 (unknown function) / E0061 (arity) located inside a generated harness."""
+    lib = os.path.join(prep["dir"], "src", "lib.rs")
+    lines = open(lib).read().split("\n")
+    # map line -> harness fn
+    owner = {}
+    cur = None
+    for i, l in enumerate(lines, 1):
+        m = re.match(r"\s*fn (c\d\d\w*)\(\) \{", l)
+        if m:
+            cur = m.group(1)
+        owner[i] = cur
+    out = {}
+    for m in re.finditer(r"error\[(E0425|E0061)\]: ([^\n]*)\n\s*--> src/lib\.rs:(\d+):", log_):
+        code, msg, line = m.group(1), m.group(2), int(m.group(3))
+        h = owner.get(line)
+        if not h:
+            continue
+        fn = re.search(r"`(\w+)`", msg)
+        if code == "E0425" and fn and fn.group(1) in prep["cm"].functions:
+            out[h] = "the header declares %s but the macro-expanded module has no such function (rustc: %s)" % (fn.group(1), msg)
+        elif code == "E0061":
+            out[h] = "the header's prototype and the macro-expanded function disagree on the number of parameters (rustc: %s)" % msg
+    return out
+
+
+def strip_harnesses(prep, names):
+    lib = os.path.join(prep["dir"], "src", "lib.rs")
+    txt = open(lib).read()
+    for n in names:
+        txt = re.sub(r"    #\[cfg\(kani\)\]\n    #\[kani::proof\]\n(    #\[kani::unwind\(\d+\)\]\n)?    fn %s\(\) \{.*?\n    \}\n" % re.escape(n), "", txt, flags=re.S)
+    with open(lib, "w") as fh:
+        fh.write(txt)
+
+
 def static_replay_text(mod, prep, subject, message):
     cm = prep["cm"]
     lines = ["STATIC DISAGREEMENT between the Rust bridge module and the generated C header", "",
@@ -570,6 +605,24 @@ def run(prop):
         ht = 1800 if tier() == "thorough" else 600
         res, tools, log_, ok, wall = kani_run(prep["dir"], "bridge", filters=["ffi::" + w for w in wanted], exact=True, harness_timeout=ht,
                                               target_dir=os.path.join(CACHE, "target-bridge"))
+        if not ok:
+            # A harness calls each wrapper by the name and with the arity the *header* declares. If rustc rejects exactly
+            # that (unknown function / wrong number of arguments), header and macro disagree: a static finding. The
+            # offending harnesses are removed and the module is verified again; any other compile error is inconclusive.
+            bad = harness_compile_findings(prep, log_)
+            if bad:
+                for hname, msg in bad.items():
+                    if prop in gen["harnesses"].get(hname, []):
+                        n_static += 1
+                        os.makedirs(replay_dir, exist_ok=True)
+                        path = os.path.join(replay_dir, "static_%s_%s.txt" % (mod.name, hname))
+                        with open(path, "w") as fh:
+                            fh.write(static_replay_text(mod, prep, hname[4:], msg))
+                        out["violations"].append(("static:%s:%s" % (mod.name, hname), path, msg))
+                strip_harnesses(prep, set(bad))
+                wanted = [w for w in wanted if w not in bad]
+                res, tools, log_, ok, wall = kani_run(prep["dir"], "bridge", filters=["ffi::" + w for w in wanted], exact=True, harness_timeout=ht,
+                                                      target_dir=os.path.join(CACHE, "target-bridge"))
         if not ok:
             errs = compile_error_summary(log_)
             out["inconclusive"].append("module %s did not build under Kani: %s" % (mod.name, errs or log_[-1500:]))
